@@ -48,7 +48,9 @@ Vals(ty) ==
                            <<61>>,                          \* =
                            <<49, 48, 61, 49>>,              \* 10=1
                            <<54, 61, 50>>,                  \* 6=2   (count tag of a group / suffix of 146)
-                           <<88, 49, 52, 54, 61, 55>> >>    \* X146=7
+                           <<88, 49, 52, 54, 61, 55>>,      \* X146=7
+                           <<54, 61, 54, 61, 50>>,          \* 6=6=2  (the text twice in a row)
+                           <<49, 52, 54, 61, 49, 52, 54, 61, 55>> >>  \* 146=146=7 (also: a value of tag 1146 that starts with "146=")
     [] ty = "int"    -> << <<48>>, <<45, 51>>, <<49, 52, 54>> >>   \* 0 -3 146
     [] ty = "bool"   -> << <<89>>, <<78>> >>
     [] ty = "raw"    -> << <<2>>, <<53, 61>> >>                     \* 0x02, "5="
